@@ -93,7 +93,7 @@ fn switch(mut st: MutexGuard<'static, State>, me: usize) {
         }
         if t != me && st.status[t] == Status::Blocked {
             if let Some(fd) = st.waiting_on[t] {
-                if crate::simk::with_fd(fd, |s| s.cq_ready() > 0).unwrap_or(false) {
+                if crate::simk::with_fd(fd, |s| s.cq_ready() > 0 || (s.flags & crate::simk::abi::SETUP_SQPOLL != 0 && s.sq_pending() > 0)).unwrap_or(false) {
                     options.push(t);
                 }
             }
@@ -218,6 +218,7 @@ pub fn default_block(fd: i32, has_timeout: bool) -> BlockAction {
             return BlockAction::Etime;
         }
         st.stuck = true;
+        st.exec.push((me, 999));
         return BlockAction::Stuck;
     }
     st.status[me] = Status::Blocked;
@@ -226,6 +227,7 @@ pub fn default_block(fd: i32, has_timeout: bool) -> BlockAction {
     let mut st = lock();
     st.status[me] = Status::Runnable;
     st.waiting_on[me] = None;
+    st.exec.push((me, 998));
     BlockAction::Retry
 }
 
